@@ -13,12 +13,6 @@ package ast_java
 //@ establishes
 //@ modifies *
 
-// string helpers without side effects on the listener state: verified on their own, not inlined into every callback
-//@ func WarpTargetFullType
-//@ noinline
-
-//@ func ParseTargetType
-//@ noinline
 
 // ---- C01: what the full pass records for a method declaration
 
@@ -81,3 +75,55 @@ package ast_java
 //@ ensures old((*currentNode).NodeName != "" && currentType != "CreatorClass" && len(classNodeQueue) == 0) ==> len(classNodes[len(classNodes) - 1].Functions) == old(len(methodMap))
 //@ ensures forall k string :: {k in old(methodMap)} old((*currentNode).NodeName != "" && currentType != "CreatorClass" && len(classNodeQueue) == 0) && (k in old(methodMap)) ==> (exists i int :: 0 <= i && i < len(classNodes[len(classNodes) - 1].Functions) && classNodes[len(classNodes) - 1].Functions[i] == old(methodMap[k]))
 //@ ensures old((*currentNode).NodeName != "" && currentType != "CreatorClass" && len(classNodeQueue) == 0) ==> currentNode != nil && (*currentNode).NodeName == "" && methodMap != nil && len(methodMap) == 0
+
+// ---- C02: how the receiver of a call is resolved
+
+// a receiver name is looked up among the fields, then the formal parameters, then the local variables
+//@ func ParseTargetType
+//@ noinline
+//@ requires mapFields != nil && formalParameters != nil && localVars != nil
+//@ ensures mapFields[targetCtx] != "" ==> result == mapFields[targetCtx]
+//@ ensures mapFields[targetCtx] == "" && formalParameters[targetCtx] != "" ==> result == formalParameters[targetCtx]
+//@ ensures mapFields[targetCtx] == "" && formalParameters[targetCtx] == "" && localVars[targetCtx] != "" ==> result == localVars[targetCtx]
+//@ ensures mapFields[targetCtx] == "" && formalParameters[targetCtx] == "" && localVars[targetCtx] == "" ==> result == targetCtx
+
+// the simple type name a receiver type text starts with (up to the first '.', array brackets dropped)
+//@ spec Head(t string) string := Contains(t, ".") ? t[:IndexOf(t, ".")] : t
+//@ spec PureType(t string) string := ReplaceAll(ReplaceAll(Head(t), "[", ""), "]", "")
+//@ spec InList(xs []string, s string) bool := exists j int :: 0 <= j && j < len(xs) && xs[j] == s
+
+// a type is attributed to an import only if the import names that type: it is the type, or ends with ".Type"
+//@ func WarpTargetFullType
+//@ noinline
+//@ ensures result1 == "chain" ==> InList(imports, result0) && (result0 == PureType(targetType) || HasSuffix(result0, "." + PureType(targetType)))
+//@ ensures result1 == "same package" ==> InList(clzs, result0) && HasSuffix(result0, "." + PureType(targetType))
+//@ ensures result1 == "" ==> result0 == ""
+
+// ---- C02: what a method invocation records
+
+// the position selects the callee identifier: it starts at the first token of the call and is as long as the callee name
+//@ func BuildMethodCallLocation
+//@ requires jMethodCall != nil && ctx != nil
+//@ modifies *jMethodCall
+//@ ensures (*jMethodCall).Position.StartLine == GetLine(GetStart(ctx)) && (*jMethodCall).Position.StartLinePosition == GetColumn(GetStart(ctx))
+//@ ensures (*jMethodCall).Position.StopLinePosition == GetColumn(GetStart(ctx)) + len(callee)
+//@ ensures (*jMethodCall).FunctionName == old((*jMethodCall).FunctionName) && (*jMethodCall).NodeName == old((*jMethodCall).NodeName) && (*jMethodCall).Package == old((*jMethodCall).Package)
+
+// the call is recorded exactly once in the list of calls of the file and once in the calls of the method being read
+//@ func sendResultToMethodCallMap
+//@ requires methodMap != nil
+//@ modifies methodCalls
+//@ modifies methodMap
+//@ ensures len(methodCalls) == old(len(methodCalls)) + 1 && Extends(methodCalls, old(methodCalls), 1) && methodCalls[len(methodCalls) - 1] == jMethodCall
+//@ ensures exists key string :: len(methodMap[key].FunctionCalls) == old(len(methodMap[key].FunctionCalls)) + 1 &&
+//@    methodMap[key].FunctionCalls[len(methodMap[key].FunctionCalls) - 1] == jMethodCall &&
+//@    (forall k string :: {methodMap[k]} k != key ==> methodMap[k] == old(methodMap[k]))
+
+// a method invocation is recorded exactly once, under the callee's name, at the position of the callee identifier
+//@ method JavaFullListener.EnterMethodCall
+//@ modifies methodCalls
+//@ modifies methodMap
+//@ ensures len(methodCalls) == old(len(methodCalls)) + 1 && Extends(methodCalls, old(methodCalls), 1)
+//@ ensures methodCalls[len(methodCalls) - 1].FunctionName == GetText(Kid(ctx, 0))
+//@ ensures methodCalls[len(methodCalls) - 1].Position.StartLine == GetLine(GetStart(ctx)) && methodCalls[len(methodCalls) - 1].Position.StartLinePosition == GetColumn(GetStart(ctx)) &&
+//@    methodCalls[len(methodCalls) - 1].Position.StopLinePosition == GetColumn(GetStart(ctx)) + len(GetText(Kid(ctx, 0)))
